@@ -386,7 +386,7 @@ fn frame() -> impl Strategy<Value = Frame> {
 
 pub fn run(ctx: &mut Ctx) {
     let fs = ctx.first_shard();
-    ctx.rule = "histories of 1-9 U2F registrations (challenge, 3 application parameters, key handles of 0..=255 bytes incl. 0/16/254/255) and authentications (registered or unknown handle, wrong application, counters incl. 0/max, all presence flag bytes, all three control bytes) on MemoryStore, the reference store and the Option slot; and well-formed extended-length request frames for register / authenticate (P1 in {3,7,8}) / version with and without Le. Non-trivial = a history with a successful authentication after a registration, or a frame with payload; distinct by history / frame.".into();
+    ctx.rule = "histories of 1-9 U2F registrations (challenge, 3 application parameters, key handles of 0..=255 bytes incl. 0/16/254/255) and authentications (registered or unknown handle, wrong application, counters incl. 0/max, all presence flag bytes, all three control bytes) on MemoryStore, the reference store and the Option slot; and well-formed extended-length request frames for register / authenticate (P1 in {3,7,8}) / version with and without Le. Since rounds 7/8: constant-byte application parameters (all 256), unknown handles that are rearrangements of a registered one, a reference store that does not persist counters. Non-trivial = a history with a successful authentication after a registration, or a frame with payload; distinct by history / frame.".into();
     ctx.assumptions = vec![
         "the registration signature may be DER or fixed r||s (the statement only requires that it verifies); the authentication signature is checked as DER".into(),
         "stores used are infallible, so every registration must succeed".into(),
